@@ -312,9 +312,12 @@ class Session:
         return self.hangup_and_close()
 
 
-def run_case(exe, spec, chunks, cols=80, rows=24, raw_initial=False, probe=None, events=None, between_reads=None):
+def run_case(exe, spec, chunks, cols=80, rows=24, raw_initial=False, probe=None, events=None, between_reads=None, sync_keys=False):
     """Returns dict: obs (list of lines), out (bytes), per-chunk outputs, statuses.
     events: {chunk index: [("winch", cols) | ("tstp",)]} performed once that chunk has been consumed.
+    sync_keys: one key per chunk, every key logged by the child (no custom binding swallows it): after chunk k wait until
+    k+1 key observations have arrived, and before hanging up until a result line has -- for children whose other file
+    I/O (an SQLite database) makes the read-counter test of quiescence unreliable.
     between_reads: list of "keep" | "raw" | "cooked": with `pause 1` in the spec the child stops itself after every
     read; the driver then records the terminal settings (key "stops") and switches them as told before resuming."""
     s = Session(exe, spec, cols, rows, raw_initial)
@@ -347,6 +350,20 @@ def run_case(exe, spec, chunks, cols=80, rows=24, raw_initial=False, probe=None,
         if not s.alive:
             break
         statuses.append(s.send(ch))
+        if sync_keys:
+            t0 = time.time()
+            while time.time() - t0 < s.timeout:
+                s._drain()
+                if sum(1 for l in s.obs if l.startswith("K ")) >= k + 1 or any(l.startswith("R ") for l in s.obs) or s._exited():
+                    break
+                time.sleep(0.0005)
+            if k + 1 == len(chunks):
+                t0 = time.time()
+                while time.time() - t0 < s.timeout:
+                    s._drain()
+                    if any(l.startswith("R ") for l in s.obs) or s._exited():
+                        break
+                    time.sleep(0.0005)
         for ev in (events or {}).get(k, []):
             if not s.alive:
                 break
